@@ -101,14 +101,34 @@ def build(case):
         return np.array(cells, dtype=np.int64).reshape(n, w)
     labels = [pyval(t) for t in case["labels"]]
     if c in ("df-f", "df-r"):
-        return pd.DataFrame(np.array(cells, dtype=np.float64).reshape(n, w), columns=labels)
+        return row_labelled(case, pd.DataFrame(np.array(cells, dtype=np.float64).reshape(n, w), columns=labels))
     if c == "df-i":
-        return pd.DataFrame(np.array(cells, dtype=np.int64).reshape(n, w), columns=labels)
+        return row_labelled(case, pd.DataFrame(np.array(cells, dtype=np.int64).reshape(n, w), columns=labels))
     if c == "df-m":   # float features, int64 last column
         arr = np.array(cells, dtype=np.float64).reshape(n, w)
         d = {labels[j]: (arr[:, j].astype(np.int64) if j == w - 1 else arr[:, j]) for j in range(w)}
-        return pd.DataFrame(d, columns=labels)
+        return row_labelled(case, pd.DataFrame(d, columns=labels))
     raise core.Infra("unknown container " + c)
+
+
+def row_labelled(case, df):
+    """DataFrames arrive with whatever row index the caller's pipeline left on them: the property is about positions
+    (rows outside [from_index, to_index) by position), so the result's values must not depend on the row labels.  The style
+    is a function of the case's seed: default RangeIndex (half of the cases), a slice of a longer frame (labels 100, 103, ...),
+    a reversed range (a permutation of the default labels), strings, or repeated labels."""
+    n = len(df)
+    style = case.get("rowidx", int(case.get("seed", 0)) % 8)
+    if n == 0 or style in (0, 1, 2, 3):
+        return df
+    if style == 4:
+        df.index = [100 + 3 * i for i in range(n)]
+    elif style == 5:
+        df.index = list(range(n - 1, -1, -1))
+    elif style == 6:
+        df.index = ["r%d" % i for i in range(n)]
+    else:
+        df.index = [i // 2 for i in range(n)]
+    return df
 
 
 def observe(res):
